@@ -9,6 +9,7 @@ for d in seeded/*/; do
   [ -s $d/patch.diff ] || continue
   id=$(python3 -c "import json,sys;print(json.load(open('$d/meta.json')).get('breaks','')[:3])" 2>/dev/null)
   [ -n "$id" ] || continue
+  if grep -q '"detected_by": "NOT detected' $d/meta.json 2>/dev/null; then echo "documented as semantically neutral (not expected to be detected): $name"; continue; fi
   out=$(tools/try_patch.sh $d/patch.diff $id 2>&1 | head -1)
   n=$((n+1))
   case "$out" in *"exit=1"*) ;; *) echo "NOT DETECTED: $name -> $out"; miss=$((miss+1));; esac
